@@ -20,6 +20,8 @@ from kopf._core.intents import causes, registries
 from kopf._core.reactor import processing
 
 logging.disable(logging.CRITICAL)
+# a foreign finalizer that merely looks like the framework's own (its unqualified tail): only the exact name is ours
+LOOKALIKE = FIN.rpartition('/')[2]
 ENCODED = [causes.detect_changing_cause, processing.process_resource_event, processing.process_resource_causes,
            processing._detect_causes, processing.process_changing_cause,
            registries.ChangingRegistry.iter_handlers, registries.ChangingRegistry.prematch]
@@ -60,7 +62,7 @@ def h_detect(evtype: int, deleting: bool, has_fin: bool, old_none: bool, diff_em
     meta = {}
     if deleting:
         meta['deletionTimestamp'] = '2020-01-01T00:00:00Z'
-    meta['finalizers'] = [FIN, 'other'] if has_fin else ['other']
+    meta['finalizers'] = [FIN, LOOKALIKE] if has_fin else [LOOKALIKE]
     raw = base_body(**meta)
     body = bodies.Body(raw)
     old = None if old_none else {'spec': {'x': 1}}
@@ -89,7 +91,7 @@ def run_event(evtype, deleting, has_fin, handled, changed, with_delete, optional
     obj_meta = {'annotations': {}}
     if deleting:
         obj_meta['deletionTimestamp'] = '2020-01-01T00:00:00Z'
-    obj_meta['finalizers'] = [FIN, 'other/fin'] if has_fin else ['other/fin']
+    obj_meta['finalizers'] = [FIN, 'other/fin', LOOKALIKE] if has_fin else ['other/fin', LOOKALIKE]
     if handled:
         obj_meta['annotations'][LHC] = (json.dumps({}) if bare else json.dumps({'spec': {'x': 1}})) + '\n'
     obj = base_body(spec={'x': 2 if changed else 1}, **obj_meta)
